@@ -401,9 +401,9 @@ fn find_arg<'r, 'c, 's:'c, 'm:'c>(rules_with_context: &'r mut SpeechRulesWithCon
             // debug!("looking for '{}', found arg='{}'", name, arg_val);
             if name == arg_val {
                 // check to see if this mathml has an intent value -- if so the value is the value of its intent value
-                if let Some(intent_str) = mathml.attribute_value(INTENT_ATTR) {
-                    let mut lex_state = LexState::init(intent_str.trim())?;
-                    return Ok( Some( build_intent(rules_with_context, &mut lex_state, mathml)? ) );
+                if mathml.attribute_value(INTENT_ATTR).is_some() {
+                    // the same as for an intent met directly: all of the value has to be used, and an illegal value is ignored or reported as configured
+                    return Ok( Some( infer_intent(rules_with_context, mathml)? ) );
                 } else {
                     return Ok( Some( rules_with_context.match_pattern::<Element<'m>>(mathml)? ) );
                 }
